@@ -7,6 +7,7 @@ import (
 	"github.com/gogo/protobuf/proto"
 
 	"github.com/aptpod/iscp-go/internal/vf"
+	"github.com/aptpod/iscp-go/internal/vfmsg"
 	"github.com/aptpod/iscp-go/message"
 )
 
@@ -191,5 +192,35 @@ func zzC11p2Sizes() {
 			vf.Assert("sequence-number", g.StreamChunk.SequenceNumber == uint32(round+1) && g.StreamIDAlias == 7)
 		}
 	}
+	vf.Reach("end")
+}
+
+// C11.p3: every message type through the real byte codec (generated marshal / unmarshal code):
+// the decoded message equals the encoded one, the byte counts reported equal the bytes produced and
+// consumed, and the decoded message encodes again to the same length and decodes to itself.
+func zzC11p3AllTypesBytes() {
+	kind := vf.Choose("kind", vfmsg.Kinds)
+	ext := vf.Choose("ext", 2) == 1
+	g := &vfmsg.Gen{Profile: vf.Choose("profile", 5)}
+	m := g.Build(kind, ext)
+	e := NewEncoding()
+	var buf bytes.Buffer
+	n, err := e.EncodeTo(&buf, m)
+	vf.Assert("encode-ok", err == nil)
+	vf.Assert("count-produced", n == buf.Len())
+	first := append([]byte{}, buf.Bytes()...)
+	rn, back, err := e.DecodeFrom(&buf)
+	vf.Assert("decode-ok", err == nil && back != nil)
+	if err != nil || back == nil {
+		return
+	}
+	vf.Assert("count-consumed", rn == len(first))
+	vf.Assert("round-trip-equal", vf.CanonEqual(m, back))
+	// (byte-identical re-encoding is not demanded: map entries may be written in any order)
+	var buf2 bytes.Buffer
+	n2, err := e.EncodeTo(&buf2, back)
+	vf.Assert("re-encode-same-length", err == nil && n2 == len(first))
+	_, again, err := e.DecodeFrom(&buf2)
+	vf.Assert("re-decode-equal", err == nil && vf.CanonEqual(back, again))
 	vf.Reach("end")
 }
